@@ -94,6 +94,15 @@ def gen_config_programs(tier: str, rnd: random.Random) -> list[dict]:
     for tag in dt_tags(tier):
         for refused, silent in (((), ()), (("meter",), ()), ((), ("meter",))):
             progs.append(cfg_program("DT", tag, 0, refused, (None, None, None), rnd, silent_names=silent))
+    # Modbus/TCP answers whose MBAP length field is not what the frame holds (accepted: the validator ignores the field):
+    # every tag class, every block answered / one block refused
+    for fam, tags in (("ET", et_tags("quick")), ("DT", dt_tags("quick"))):
+        for tag in tags:
+            for mb in ("bytecount", "six", "zero", "max"):
+                for sub in (((), ("battery",)) if fam == "ET" else ((), ("meter",))):
+                    p = cfg_program(fam, tag, 15000 if fam == "ET" else 0, sub, (1, 1, 1) if fam == "ET" else (None, None, None), rnd, 502)
+                    p["mbap"] = mb
+                    progs.append(p)
     # ES: every model tag of the family x firmware (arm version below / at 14 decides the eco-mode generation), three calls
     from goodwe import model as M
     es_tags = list(M.ES_MODEL_TAGS)
@@ -415,7 +424,15 @@ def check(prop: str, tier: str, seed: int) -> int:
         progs = gen_single_programs(tier, rnd)
         traces = engine.parallel_map("harness.checks_inverter", "run_single_program", progs, procs=16, chunk=1)
     else:
-        progs = gen_readonly_programs(tier, rnd) + gen_config_programs("quick", rnd)[:: (40 if tier == "quick" else 4)]
+        # + the monitoring calls over the register contents of the decoding checks (boundary / directed / random fills of every
+        # polled block, the inverter's clock over its whole range): what a monitoring call transmits must not depend on what it reads
+        from .checks_decode import gen_span_programs
+        sp = gen_span_programs(tier, rnd)
+        for p_ in sp:
+            for c in p_["calls"]:
+                if "api" in c:
+                    c.setdefault("span", {})["decode"] = False
+        progs = gen_readonly_programs(tier, rnd) + gen_config_programs("quick", rnd)[:: (40 if tier == "quick" else 4)] + sp
         traces = engine.parallel_map("harness.checks_inverter", "run_readonly_program", progs, procs=16, chunk=2)
     for tr in traces:
         if tr["status"] != "ok":
